@@ -202,6 +202,31 @@ def roundtrip(cls, obj, base_kwargs, kv, kwargs=None, wire_ok=()):
                 return 'field-lost', 'the encoding omits %s although this version writes that field in ' \
                     'other contexts' % ', '.join(sorted(set(_LOST))), b
             return 'not-equal', 'decoded value != original', b
+    elif kwargs is not None:
+        # no __eq__: the re-encoding cannot see a field the writer drops under every version (reader
+        # and writer agree on its absence) - compare the instances' data attributes one by one
+        va, vb = vars(obj), vars(r)
+        lost = [k for k in va if k in vb and k != 'length' and _is_data(va[k]) and _is_data(vb[k])
+                and not _same_field(va[k], vb[k], kv)]
+        if lost:
+            gated = []
+            for p_, v in kwargs.items():
+                if v is None or p_ in base_kwargs:
+                    continue
+                o2, _ = shapes.try_construct(cls, {k: (None if k == p_ else x) for k, x in kwargs.items()})
+                try:
+                    if o2 is not None and shapes.encode(o2, kv) == b and _on_wire_somewhere(obj, o2):
+                        gated.append(p_)
+                except Exception:   # noqa
+                    pass
+            if gated:
+                o3, _ = shapes.try_construct(cls, {k: (None if k in gated else x) for k, x in kwargs.items()})
+                if o3 is not None:
+                    v3 = vars(o3)
+                    if all(_same_field(v3.get(k), vb.get(k), kv) for k in lost):
+                        return 'ok-version-gated', '', b
+            return 'field-lost', "attribute(s) %s of the original do not come back from the decode and " \
+                "the encoding does not carry them" % ', '.join(sorted(lost)), b
     return 'ok', '', b
 
 
@@ -787,6 +812,10 @@ def _same_field(a, b, kv):
         except Exception:   # noqa
             return False
     return a == b
+
+
+def _is_data(x):
+    return x is None or isinstance(x, (primitives.Base, list, tuple, str, bytes, int, bool, enums.enum.Enum))
 
 
 def _fieldwise_roundtrip(cls, kwargs, kv):
